@@ -9,10 +9,17 @@ git -C /repo worktree add --detach "$W" HEAD -q || exit 2
 trap 'git -C /repo worktree remove --force "$W" >/dev/null 2>&1; rm -rf "$W"' EXIT
 for p in mutants/${1:-*}.patch; do
   n=$(basename "$p" .patch)
-  ids=$(grep -h -i "^#\? *kills:" "mutants/$n.txt" 2>/dev/null | head -1 | sed 's/^#\? *kills: *//I')
+  ids=$(grep -h -i "^#\? *kills:" "mutants/$n.txt" 2>/dev/null | head -1 | sed 's/^#\? *kills: *//I' | tr ',' ' ')
   [ -z "$ids" ] && ids=${n%%-*}
   git -C "$W" checkout -q -- . ; git -C "$W" clean -fdq
-  if ! git -C "$W" apply "$PWD/$p" 2>/dev/null; then echo "$n: DOES-NOT-APPLY"; continue; fi
+  if ! git -C "$W" apply "$PWD/$p" 2>/dev/null; then
+    # written against an older tree (before fix: commits): try a 3-way merge on the blobs named in the patch
+    git -C "$W" checkout -q -- . ; git -C "$W" clean -fdq
+    if ! git -C "$W" apply -3 "$PWD/$p" >/dev/null 2>&1 || git -C "$W" diff --name-only --diff-filter=U | grep -q .; then
+      echo "$n: DOES-NOT-APPLY"; git -C "$W" reset -q --hard; continue
+    fi
+    git -C "$W" reset -q
+  fi
   t=$(cd "$W" && PYTHONDONTWRITEBYTECODE=1 /venv/bin/python -m pytest -q -p no:cacheprovider tests 2>&1 | tail -1)
   case "$t" in *"140 passed"*) ;; *) echo "$n: killed-by-repo-tests ($t)"; continue;; esac
   out="$n:"
